@@ -39,6 +39,26 @@ CHECKS = {
          "every history of non-mutating calls up to the stated depth on populated FAT12/16/32 volumes (clean/dirty at mount, fs-info count exact/missing/too large): the device log of the whole session incl. drop/unmount contains no write and the image is byte-identical; only exception: fs-info sector after stats on FAT32 without a usable count",
          "access-date updating off; populated volume made by the library itself (builder-made variant: see C08)",
          "DESIGN.md §4 C13"),
+ "C09": ("fault-enumerator", "fault_enumeration",
+         "exhaustive single-fault enumeration on the real crate: every device call (read/write/seek/flush) of the last operation of every explored history fails in turn, with a device-call budget",
+         "for every operation kind on FAT12/16/32 (incl. mount, unmount, format_volume, allocation wrap-around) and every position k of its device calls: a fault outside a destructor makes the call return Io carrying the injected error id; never Ok, another kind, a panic or a budget overrun",
+         "single fault per execution; whole-FAT scans (>3000 calls) visited at a stride in the middle (reported in evidence); destructor calls identified by the drop_depth hook",
+         "DESIGN.md §4 C09"),
+ "C10": ("explorer", "model_checking",
+         "explicit-state BFS on builder-made volumes with 1-3 FAT copies, mirroring on/off with every active copy, pre-set reserved nibbles; byte comparison of FAT copies after every call",
+         "after every call of every history: mirrored copies byte-identical; with mirroring off no write reaches an inactive copy (device log) and inactive copies keep their bytes; entries 0/1, padding entries and FAT32 top nibbles keep their initial values; no chain leaves the volume",
+         "bounded by depth/alphabet/configurations listed in the evidence; volumes made by the independent builder",
+         "DESIGN.md §4 C10"),
+ "C11": ("explorer", "model_checking",
+         "explicit-state BFS with a device-log monitor: every write of the last call classified against the independent decoder's region/ownership map of the pre-state",
+         "every device write of every call of every history lies in the status byte, fs-info, a writable FAT copy, the fixed root, clusters owned by the operation's may-modify set or clusters free before the call; never boot code, backup boot, other reserved sectors, slack, beyond the declared end, foreign or bad clusters; sentinel tail intact; exact and short-transferring devices; reserved areas of 4/32 sectors",
+         "may-modify set derived from the reference model (target file, directories on the path, parent of a handle's entry)",
+         "DESIGN.md §4 C11"),
+ "C14": ("crash-enumerator", "fault_enumeration",
+         "exhaustive crash-point enumeration over the device write log of every explored history; each crash image remounted with the crate and decoded independently",
+         "for every explored history with a durability point (successful flush/drop of f, f not modified afterwards) and every later cut: every prefix of the device writes, loss of everything after the last device flush (thorough: bounded subsets of unflushed writes) still yields f with exactly the flushed content",
+         "whole-call write granularity (no torn sectors); device honours flush as a barrier",
+         "DESIGN.md §4 C14"),
 }
 
 NOT_YET = {}
@@ -59,6 +79,8 @@ def main():
         "add_only": True
       },
       "engines": [
+        {"name": "fault-enumerator", "path": "mc/fatmc/src/c09.rs", "serves_properties": ["C09"], "kind_free_text": "per explored history: N re-executions of the real crate, each failing one device call"},
+        {"name": "crash-enumerator", "path": "mc/fatmc/src/c14.rs", "serves_properties": ["C14"], "kind_free_text": "per explored history: crash images rebuilt from the device write log (prefixes, flush-epoch loss, subsets), remounted and decoded"},
         {"name": "explorer", "path": "mc/harness/src/explore.rs", "serves_properties": [i for i,c in CHECKS.items() if c[0]=="explorer"],
          "kind_free_text": "hand-rolled explicit-state model checker: level-synchronous BFS over operation histories, each node re-executed on the real fatfs crate over an in-memory device; oracle = reference model + independent FAT decoder + device log monitor"},
       ],
